@@ -13,10 +13,14 @@ import (
 // grammar and its near-misses: never panics; when accepted, the number of stages is the number of comma-separated
 // elements and every stage is exactly (ParseDuration(trimmed first part), Atoi(trimmed second part)).
 //
+// NOT REGISTERED (tier off): the string queries of this harness are not decided by z3 5.1 / cvc5 in reasonable time
+// (<= 7 characters: over the 90-minute thorough limit; <= 5 characters: the first obligation is still unknown after
+// 7 minutes). Kept for the record; ParseStages is therefore only covered through the staged-trigger builder harness.
+//
 //verif:timeout 200
 //verif:solver z3new
 //verif:splitmax 3
-//verif:tier thorough
+//verif:tier off
 func VerifC14_ParseStages() {
 	s := zz.String("stages")
 	zz.Assume(len(s) <= 7)
